@@ -351,4 +351,15 @@ theorem illsized_setattr_diverges :
 example : runLazy demoCfg [.get 0 7] [Lazy.ofFile [demoRow 49 50]] = [.err] ∧
     runEager demoCfg [.get 0 7] [Eager.ofFile 2 [demoRow 49 50]] = [.err] := by decide +kernel
 
+
+/-! ### (5) which of the two machines a read gives: the documented switches and their precedence -/
+
+/-- **C05.shouldBeLazy_precedence** — the predicate of the code is the documented rule: the `lazy=` keyword wins, without it the
+global `config.LAZY` decides, and an excluded buffer type is never lazy (all 12 combinations) -/
+theorem shouldBeLazy_precedence (cfgLazy : Bool) (kw : Option Bool) (excluded : Bool) :
+    shouldBeLazy cfgLazy kw excluded = ((kw.getD cfgLazy) && !excluded) := by
+  cases cfgLazy <;> cases excluded <;> cases kw with
+  | none => rfl
+  | some b => cases b <;> rfl
+
 end C05
